@@ -10,43 +10,49 @@
 EXTENDS Integers, Sequences, FiniteSets
 CONSTANTS MaxCoord,     \* camber coordinates 0..MaxCoord
           Gap,          \* stations farther apart than this need a mid station
-          MayFail       \* TRUE: the symmetric spanning ray may fail to exist
+          MayFail,      \* TRUE: the symmetric spanning ray may fail to exist
+          Guarded       \* TRUE: the retry guard of the repaired code (accept `next` when the same (next,last) pair comes up again)
 
 VARIABLES circles,      \* stored order (Vec)
           reversed,     \* flag: working end is the front (TRUE) or the back (FALSE)
           stack,        \* refine stack (top = last element)
           dropped,      \* stations dropped because no spanning ray existed
           pushed,       \* every station ever handed to push, in order
+          guard,        \* the (next, last) pair for which a mid station was most recently requested, or <<>>
+          fails,        \* the (next, last) pairs whose symmetric spanning ray cannot be created (a fixed property of the section)
           pc
-vars == <<circles, reversed, stack, dropped, pushed, pc>>
+vars == <<circles, reversed, stack, dropped, pushed, guard, fails, pc>>
+Pairs == {p \in (0..MaxCoord) \X (0..MaxCoord) : p[1] > p[2]}
 
 Last == IF circles = <<>> THEN -1 ELSE IF reversed THEN circles[1] ELSE circles[Len(circles)]
 PushTo(c) == IF reversed THEN <<c>> \o circles ELSE Append(circles, c)
 
 \* the analysis walks away from the seed: new stations lie beyond the working end
-Init == /\ reversed \in BOOLEAN /\ circles = <<>> /\ stack = <<>> /\ dropped = {} /\ pushed = <<>> /\ pc = "idle"
+Init == /\ fails \in (IF MayFail THEN {S \in SUBSET Pairs : Cardinality(S) <= 2} ELSE {{}})
+        /\ reversed \in BOOLEAN /\ circles = <<>> /\ stack = <<>> /\ dropped = {} /\ pushed = <<>> /\ guard = <<>> /\ pc = "idle"
 
 \* the caller found a new inscribed circle beyond the working end and asks for refinement
 Offer == /\ pc = "idle"
          /\ \E c \in 0..MaxCoord : (circles = <<>> \/ c > Last) /\ stack' = <<c>>
-         /\ pc' = "refine" /\ UNCHANGED <<circles, reversed, dropped, pushed>>
+         /\ guard' = <<>>                       \* the guard is local to one call of refine_stations
+         /\ pc' = "refine" /\ UNCHANGED <<circles, reversed, dropped, pushed, fails>>
 
 \* one iteration of `while let Some(next) = stack.pop()`
 Refine ==
     /\ pc = "refine" /\ stack # <<>>
     /\ LET next == stack[Len(stack)] rest == SubSeq(stack, 1, Len(stack) - 1) IN
        IF circles = <<>> THEN
-            /\ circles' = PushTo(next) /\ pushed' = Append(pushed, next) /\ stack' = rest /\ UNCHANGED dropped
-       ELSE
-            \/ \* the symmetric spanning ray exists
-               IF next - Last > Gap
+            /\ circles' = PushTo(next) /\ pushed' = Append(pushed, next) /\ stack' = rest /\ UNCHANGED <<dropped, guard>>
+       ELSE IF <<next, Last>> \notin fails THEN
+               \* the symmetric spanning ray exists
+               IF next - Last > Gap /\ ~(Guarded /\ guard = <<next, Last>>)
                THEN \* out of tolerance: put next back, then the mid station on top of it
-                    /\ stack' = rest \o <<next, (next + Last) \div 2>> /\ UNCHANGED <<circles, dropped, pushed>>
-               ELSE /\ circles' = PushTo(next) /\ pushed' = Append(pushed, next) /\ stack' = rest /\ UNCHANGED dropped
-            \/ \* no spanning ray: the station is dropped without a trace
-               /\ MayFail /\ stack' = rest /\ dropped' = dropped \cup {next} /\ UNCHANGED <<circles, pushed>>
-    /\ UNCHANGED <<reversed, pc>>
-Finish == /\ pc = "refine" /\ stack = <<>> /\ pc' = "idle" /\ UNCHANGED <<circles, reversed, stack, dropped, pushed>>
+                    /\ stack' = rest \o <<next, (next + Last) \div 2>> /\ guard' = <<next, Last>> /\ UNCHANGED <<circles, dropped, pushed>>
+               ELSE /\ circles' = PushTo(next) /\ pushed' = Append(pushed, next) /\ stack' = rest /\ UNCHANGED <<dropped, guard>>
+       ELSE    \* no spanning ray: the station is dropped without a trace
+               /\ stack' = rest /\ dropped' = dropped \cup {next} /\ UNCHANGED <<circles, pushed, guard>>
+    /\ UNCHANGED <<reversed, pc, fails>>
+Finish == /\ pc = "refine" /\ stack = <<>> /\ pc' = "idle" /\ UNCHANGED <<circles, reversed, stack, dropped, pushed, guard, fails>>
 
 Next == Offer \/ Refine \/ Finish
 Spec == Init /\ [][Next]_vars /\ WF_vars(Refine \/ Finish)
@@ -60,7 +66,7 @@ WorkingEndIsLatest == pushed # <<>> => Last = pushed[Len(pushed)]
 \* nothing that was pushed is ever lost or duplicated
 NothingLost == {circles[k] : k \in 1..Len(circles)} = {pushed[k] : k \in 1..Len(pushed)} /\ Len(circles) = Len(pushed)
 \* consecutive stored stations respect the tolerance unless a station was dropped
-WithinGap == dropped = {} => \A k \in 1..(Len(circles) - 1) : FromWorkingEnd[k] - FromWorkingEnd[k + 1] <= Gap
+WithinGap == (dropped = {} /\ ~MayFail) => \A k \in 1..(Len(circles) - 1) : FromWorkingEnd[k] - FromWorkingEnd[k + 1] <= Gap
 \* the refine stack stays small: every mid station halves the distance
 StackBounded == Len(stack) <= MaxCoord + 2
 \* termination of the refinement
